@@ -29,10 +29,11 @@ VARIABLES cfg,        \* [taps, U, S, blocks, bpf, pols, bits, dict]  dict in {"
           defPkt, userPkt,   \* PKTIDX left behind in the shared default dict / the caller's dict
           files,      \* files[i] = sequence of block records
           reqs,       \* requests made to the antenna in this recording
-          done        \* finished recordings (observation only)
+          done,       \* finished recordings (observation only)
+          abort       \* [n : aborted attempts so far, rows : rows they drew, before : recording they preceded, at : request]
 
 vars == <<cfg, pc, rec, fileIdx, blkInFile, blk, sub, nsub, W0, startObs, clock, base, cache, nextSpec, cur, buf,
-          dbl, pkt, defPkt, userPkt, files, reqs, done>>
+          dbl, pkt, defPkt, userPkt, files, reqs, done, abort>>
 
 T == cfg.taps * cfg.U                          \* spectra per block (samples_per_block)
 BPS == (2 * cfg.pols * cfg.bits) \div 8          \* bytes per time sample of one channel
@@ -52,6 +53,7 @@ Init == /\ cfg \in [taps : TapsSet, U : USet, S : SSet, blocks : BlocksSet, bpf 
         /\ buf = <<>> /\ dbl = 0
         /\ pkt = 0 /\ defPkt = 0 /\ userPkt = 0
         /\ files = <<>> /\ reqs = <<>> /\ done = <<>>
+        /\ abort = [n |-> 0, rows |-> 0, before |-> 0, at |-> 0]
 
 NumFiles == Ceil(cfg.blocks, cfg.bpf)
 BlocksInFile(i) == IF i = NumFiles - 1 /\ cfg.blocks % cfg.bpf # 0 THEN cfg.blocks % cfg.bpf ELSE cfg.bpf
@@ -65,12 +67,12 @@ RecordBegin ==
     /\ cache' = [p \in 1..2 |-> <<>>] /\ nextSpec' = [p \in 1..2 |-> 0]
     /\ fileIdx' = 0 /\ blkInFile' = 0 /\ blk' = 0 /\ sub' = 0
     /\ files' = <<>> /\ reqs' = <<>>
-    /\ UNCHANGED <<cfg, nsub, W0, clock, cur, buf, dbl, defPkt, userPkt, done>>
+    /\ UNCHANGED <<cfg, nsub, W0, clock, cur, buf, dbl, defPkt, userPkt, done, abort>>
 
 OpenFile ==
     /\ pc = "file" /\ fileIdx < NumFiles
     /\ files' = Append(files, <<>>) /\ blkInFile' = 0 /\ pc' = "header"
-    /\ UNCHANGED <<cfg, rec, fileIdx, blk, sub, nsub, W0, startObs, clock, base, cache, nextSpec, cur, buf, dbl, pkt, defPkt, userPkt, reqs, done>>
+    /\ UNCHANGED <<cfg, rec, fileIdx, blk, sub, nsub, W0, startObs, clock, base, cache, nextSpec, cur, buf, dbl, pkt, defPkt, userPkt, reqs, done, abort>>
 
 (* _make_header: cards written with the current PKTIDX, then PKTIDX += samples_per_block *)
 WriteHeader ==
@@ -78,7 +80,7 @@ WriteHeader ==
     /\ files' = [files EXCEPT ![fileIdx + 1] = Append(@, [pktidx |-> pkt, first |-> -1, bytes |-> <<>>])]
     /\ pkt' = pkt + T
     /\ pc' = "plan"
-    /\ UNCHANGED <<cfg, rec, fileIdx, blkInFile, blk, sub, nsub, W0, startObs, clock, base, cache, nextSpec, cur, buf, dbl, defPkt, userPkt, reqs, done>>
+    /\ UNCHANGED <<cfg, rec, fileIdx, blkInFile, blk, sub, nsub, W0, startObs, clock, base, cache, nextSpec, cur, buf, dbl, defPkt, userPkt, reqs, done, abort>>
 
 (* collect_data_block prologue: W, subblock_T, and the in-place update of num_subblocks *)
 PlanBlock ==
@@ -87,7 +89,7 @@ PlanBlock ==
            st == cfg.taps * (w - 1) IN
        /\ W0' = w /\ nsub' = Ceil(T, st)
     /\ sub' = 0 /\ buf' = [b \in 0..RowBytes - 1 |-> Empty] /\ pc' = "request"
-    /\ UNCHANGED <<cfg, rec, fileIdx, blkInFile, blk, startObs, clock, base, cache, nextSpec, cur, dbl, pkt, defPkt, userPkt, files, reqs, done>>
+    /\ UNCHANGED <<cfg, rec, fileIdx, blkInFile, blk, startObs, clock, base, cache, nextSpec, cur, dbl, pkt, defPkt, userPkt, files, reqs, done, abort>>
 
 LastPartial == (T % SubT # 0) /\ sub = nsub - 1
 Wnow == IF LastPartial THEN ((T % SubT) \div cfg.taps) + 1 ELSE W0
@@ -105,7 +107,7 @@ Request ==
        /\ cache' = [p \in 1..2 |-> IF p > cfg.pols THEN <<>> ELSE
                      LET x == cache[p] \o new IN SubSeq(x, Len(x) - cfg.taps + 1, Len(x))]
     /\ pc' = "store"
-    /\ UNCHANGED <<cfg, rec, fileIdx, blkInFile, blk, sub, nsub, W0, base, nextSpec, buf, dbl, pkt, defPkt, userPkt, files, done>>
+    /\ UNCHANGED <<cfg, rec, fileIdx, blkInFile, blk, sub, nsub, W0, base, nextSpec, buf, dbl, pkt, defPkt, userPkt, files, done, abort>>
 
 (* the t_idx writes of one sub-block, all polarisations *)
 Writes ==
@@ -124,7 +126,7 @@ Store ==
     /\ nextSpec' = [p \in 1..2 |-> nextSpec[p] + Len(cur[p])]
     /\ sub' = sub + 1
     /\ pc' = IF sub + 1 < nsub THEN "request" ELSE "write"
-    /\ UNCHANGED <<cfg, rec, fileIdx, blkInFile, blk, nsub, W0, startObs, clock, base, cache, cur, pkt, defPkt, userPkt, files, reqs, done>>
+    /\ UNCHANGED <<cfg, rec, fileIdx, blkInFile, blk, nsub, W0, startObs, clock, base, cache, cur, pkt, defPkt, userPkt, files, reqs, done, abort>>
 
 WriteBlock ==
     /\ pc = "write"
@@ -132,19 +134,29 @@ WriteBlock ==
                               ![fileIdx + 1][blkInFile + 1].bytes = buf]
     /\ blk' = blk + 1 /\ blkInFile' = blkInFile + 1
     /\ pc' = IF blkInFile + 1 < BlocksInFile(fileIdx) THEN "header" ELSE "close"
-    /\ UNCHANGED <<cfg, rec, fileIdx, sub, nsub, W0, startObs, clock, base, cache, nextSpec, cur, buf, dbl, pkt, defPkt, userPkt, reqs, done>>
+    /\ UNCHANGED <<cfg, rec, fileIdx, sub, nsub, W0, startObs, clock, base, cache, nextSpec, cur, buf, dbl, pkt, defPkt, userPkt, reqs, done, abort>>
 
 CloseFile ==
     /\ pc = "close"
     /\ fileIdx' = fileIdx + 1
     /\ pc' = IF fileIdx + 1 < NumFiles THEN "file" ELSE "end"
-    /\ UNCHANGED <<cfg, rec, blkInFile, blk, sub, nsub, W0, startObs, clock, base, cache, nextSpec, cur, buf, dbl, pkt, defPkt, userPkt, files, reqs, done>>
+    /\ UNCHANGED <<cfg, rec, blkInFile, blk, sub, nsub, W0, startObs, clock, base, cache, nextSpec, cur, buf, dbl, pkt, defPkt, userPkt, files, reqs, done, abort>>
+
+(* the antenna source raises instead of delivering the n-th request of a recording (a user source failing, Ctrl-C ...):
+   record() propagates the exception; whatever the attempt left behind (PFB tail caches, quantiser statistics, the
+   updated num_subblocks, open block) must not matter to the next record(), which starts like any other *)
+Abort ==
+    /\ pc = "request" /\ sub < nsub /\ abort.n = 0 /\ Len(reqs) \in {1, 2}
+    /\ abort' = [n |-> 1, rows |-> clock - base, before |-> rec, at |-> Len(reqs)]
+    /\ pc' = "idle" /\ rec' = rec - 1
+    /\ UNCHANGED <<cfg, fileIdx, blkInFile, blk, sub, nsub, W0, startObs, clock, base, cache, nextSpec, cur, buf,
+                   dbl, pkt, defPkt, userPkt, files, reqs, done>>
 
 Summary == [rec |-> rec, nsub |-> nsub, clock |-> clock,
             reqs |-> reqs,
             files |-> [i \in 1..Len(files) |-> [j \in 1..Len(files[i]) |-> [pktidx |-> files[i][j].pktidx, first |-> files[i][j].first]]],
             rowsDrawn |-> LET F[k \in 0..Len(reqs)] == IF k = 0 THEN 0 ELSE F[k - 1] + reqs[k].rows IN F[Len(reqs)],
-            pktstop |-> cfg.blocks * T, blocks |-> cfg.blocks, spb |-> T]
+            pktstop |-> cfg.blocks * T, blocks |-> cfg.blocks, spb |-> T, abort |-> abort]
 
 RecordEnd ==
     /\ pc = "end"
@@ -153,17 +165,17 @@ RecordEnd ==
     \* what is left behind in dictionaries the next recording may see (must not matter: pkt' = 0 at RecordBegin)
     /\ defPkt' = IF cfg.dict = "default" THEN pkt ELSE defPkt
     /\ userPkt' = IF cfg.dict = "same" THEN pkt ELSE userPkt
-    /\ UNCHANGED <<cfg, rec, fileIdx, blkInFile, blk, sub, nsub, W0, startObs, clock, base, cache, nextSpec, cur, buf, dbl, pkt, files, reqs>>
+    /\ UNCHANGED <<cfg, rec, fileIdx, blkInFile, blk, sub, nsub, W0, startObs, clock, base, cache, nextSpec, cur, buf, dbl, pkt, files, reqs, abort>>
 
 Emit == /\ EmitOn /\ pc = "idle" /\ rec = NRec /\ done # <<>> /\ Len(done) = NRec
         /\ PrintT(ToJson([cfg |-> cfg, recs |-> done]))
         /\ done' = <<>>
         /\ UNCHANGED <<cfg, pc, rec, fileIdx, blkInFile, blk, sub, nsub, W0, startObs, clock, base, cache, nextSpec, cur, buf,
-                       dbl, pkt, defPkt, userPkt, files, reqs>>
+                       dbl, pkt, defPkt, userPkt, files, reqs, abort>>
 
 Finished == pc = "idle" /\ rec = NRec /\ (~EmitOn \/ done = <<>>) /\ UNCHANGED vars   \* explicit terminal stutter
 
-Next == Finished \/ RecordBegin \/ OpenFile \/ WriteHeader \/ PlanBlock \/ Request \/ Store \/ WriteBlock \/ CloseFile
+Next == Finished \/ RecordBegin \/ OpenFile \/ WriteHeader \/ PlanBlock \/ Request \/ Abort \/ Store \/ WriteBlock \/ CloseFile
         \/ RecordEnd \/ Emit
 
 Spec == Init /\ [][Next]_vars
@@ -210,6 +222,7 @@ SamplesDrawn ==
 
 ClockAdvance ==
     \A k \in 1..Len(done) : done[k].clock = k * (cfg.blocks * T + cfg.taps)
+                                            + (IF done[k].abort.n = 1 /\ done[k].abort.before <= k THEN done[k].abort.rows ELSE 0)
 
 (* the PFB cache hands over exactly taps rows between consecutive requests *)
 CacheHandover == \A p \in 1..cfg.pols : (~startObs) => Len(cache[p]) = cfg.taps
